@@ -136,3 +136,35 @@ def is_void_waypoints_cost(F, e):
         return False
     rec = next((r for nm, r in F.records.items() if nm.split("::")[-1] == "VoidWaypointsCost"), None)
     return rec is not None and not rec.get("fields")
+
+
+def fold_if_assign(f):
+    """A copy of function f in which `if (c) X = a; else X = b;` (each branch a single assignment to the same l-value) is
+    rewritten as `X = c ? a : b;` - the same meaning in one expression, for rules that compare result formulas."""
+    import copy
+
+    def single_assign(st):
+        if isinstance(st, dict) and st.get("k") == "block" and len(st.get("body", [])) == 1:
+            st = st["body"][0]
+        if isinstance(st, dict) and st.get("k") == "expr" and isinstance(st.get("e"), dict) and st["e"].get("k") == "assign" and st["e"].get("op") == "=":
+            return st["e"]
+        return None
+
+    def rec(n):
+        if isinstance(n, list):
+            return [rec(x) for x in n]
+        if not isinstance(n, dict):
+            return n
+        if n.get("k") == "if" and n.get("else") is not None and not n.get("constexpr") and n.get("init") is None:
+            a, b = single_assign(n.get("then")), single_assign(n["else"])
+            if a is not None and b is not None and pp(a["l"]) == pp(b["l"]):
+                e = {"k": "assign", "op": "=", "l": copy.deepcopy(a["l"]), "line": n.get("line"),
+                     "r": {"k": "cond", "c": copy.deepcopy(n["cond"]), "a": copy.deepcopy(a["r"]), "b": copy.deepcopy(b["r"]), "line": n.get("line"), "t": a["r"].get("t")}}
+                for key in ("t", "lt"):
+                    if key in a:
+                        e[key] = a[key]
+                return {"k": "expr", "e": e, "line": n.get("line")}
+        return {k_: (rec(v) if isinstance(v, (dict, list)) and k_ not in ("t", "ty", "lt", "to", "callee") else v) for k_, v in n.items()}
+    g = dict(f)
+    g["body"] = rec(f.get("body"))
+    return g
